@@ -6,6 +6,7 @@
 mod certdrv;
 mod der;
 mod desc;
+mod dndrv;
 mod keys;
 mod ossl;
 mod pemx;
@@ -31,6 +32,8 @@ fn main() {
 	match args[1].as_str() {
 		"backend" => println!("{}", BACKEND),
 		"cert-cases" => certdrv::run_cases(&args[2], &args[3]),
+		"dn-cases" => dndrv::run_cases(&args[2], &args[3]),
+		"dn-random" => dndrv::run_random(&args[2], args[3].parse().unwrap(), args[4].parse().unwrap()),
 		other => {
 			eprintln!("unknown command {}", other);
 			std::process::exit(2);
